@@ -9,8 +9,8 @@ from gv.model import grammar as G
 ID = "C08"
 RULE = (
     "Part 'enc' (shards = dialect dictionary (72 = fmt/keyval separator {gff3 '=', gff3 ' ', gtf ' '} x quoted x 3 field separators x "
-    "trailing x repeated keys) x length): every value string of length 1..2 (quick) / 1..3 (thorough) over a 19-symbol alphabet "
-    "(letters, blank, tab, LF, CR, reserved characters, quote, NUL, 0x1f, 0x7f, e-acute, U+2028, U+0085, '+', the 3-character text "
+    "trailing x repeated keys) x length): every value string of length 1..2 (quick) / 1..3 (thorough) over a 19-symbol alphabet (the "
+    "letter a, blank, tab, LF, CR, reserved characters, quote, NUL, 0x1f, 0x7f, e-acute, U+2028, U+0085, '+', the 3-character text "
     "'%41') x 4 placements; GTF dictionaries skip values containing ; \" , or control characters. A Feature with that dialect is printed "
     "and re-parsed with it: printing twice gives the same text and hash, printing does not modify the attributes, the text is one line "
     "with 9 + extras columns, columns and the attribute mapping are unchanged; for placement 0 the round trip is repeated after the "
